@@ -10,7 +10,7 @@ OUT=${OUT:-/dev/shm/thorough-$seed}
 mkdir -p "$OUT"
 for id in $ids; do
   start=$(date +%s)
-  ./check "$id" --tier thorough --seed "$seed" > "$OUT/$id.log" 2>&1
+  ./check "$id" --tier thorough --seed "$seed" ${WORKERS:+--workers $WORKERS} > "$OUT/$id.log" 2>&1
   rc=$?
   echo "$id seed=$seed exit=$rc $(( $(date +%s) - start ))s $(grep -a 'tier=thorough' "$OUT/$id.log" | tail -1 | cut -c1-200) violations=$(grep -ac '^VIOLATION' "$OUT/$id.log") known=$(grep -ac '^KNOWN-FINDING' "$OUT/$id.log")"
 done
